@@ -90,6 +90,21 @@ def obj(name, P=None, cls=None):
 
 
 def new_eval(P, **kw):
+    """Evaluator; `opaque=[quals]` keeps those functions un-inlined and names their applications by the given qualnames
+    wherever they are defined today (`scale.dt2milli` may live in d3_time.py and be imported)."""
+    opaque = kw.pop("opaque", None)
+    if opaque:
+        resolved = {}
+        for q in opaque:
+            try:
+                resolved[P.func(q).qual] = q
+            except AnchorMissing:
+                pass
+        user = kw.get("inline_filter")
+        kw["inline_filter"] = (lambda fn, _r=resolved, _u=user: fn.qual not in _r and (_u is None or _u(fn)))
+        ev = Evaluator(P, **kw)
+        ev.qual_alias.update(resolved)
+        return ev
     return Evaluator(P, **kw)
 
 
